@@ -226,6 +226,21 @@ def mk_time(t, zobj):
     return utc.replace(tzinfo=datetime.timezone.utc).astimezone(zobj)
 
 
+def zone_lib(z):
+    """which library a zone object comes from (a stable key for findings)"""
+    from pyg_base._dates import as_tz
+    if z is None:
+        return 'none'
+    try:
+        z = as_tz(z)
+    except Exception:
+        return 'unknown'
+    mod = type(z).__module__
+    if mod.startswith('pytz'):
+        return 'pytz_tzfile' if hasattr(z, '_utc_transition_times') else 'pytz_fixed'
+    return 'dateutil' if mod.startswith('dateutil') else ('stdlib' if mod == 'datetime' else mod)
+
+
 def zone_call(op, t, z):
     """one public call of the zone algebra; series ops work on a one-stamp timeseries and return its stamp"""
     import pandas as pd
@@ -284,12 +299,18 @@ def call_ytm(form, M, ts):
     Md = mk_day(M)
     if form == 'date':
         return [outcome(lambda t=t: years_to_maturity(Md, mk_day(t)), enc_years) for t in ts]
-    if form == 'list':
-        try:
-            r = years_to_maturity(Md, [mk_day(t) for t in ts])
-        except Exception as e:
-            return [enc_exc(e)] * len(ts)
-        return [enc_years(x) for x in r] if isinstance(r, list) and len(r) == len(ts) else [['other', type(r).__name__]] * len(ts)
+    if form == 'list':        # two lists: the dates up to maturity and those after it (one that raises takes the whole list with it)
+        out = {}
+        for part in ([t for t in ts if t <= M], [t for t in ts if t > M]):
+            if not part:
+                continue
+            try:
+                r = years_to_maturity(Md, [mk_day(t) for t in part])
+                enc = [enc_years(x) for x in r] if isinstance(r, list) and len(r) == len(part) else [['other', type(r).__name__]] * len(part)
+            except Exception as e:
+                enc = [enc_exc(e)] * len(part)
+            out.update(zip(part, enc))
+        return [out[t] for t in ts]
     idx = [mk_day(t) for t in ts]
     arg = pd.Series(range(len(ts)), idx, dtype=float) if form == 'series' else pd.DataFrame({'a': range(len(ts)), 'b': 1.0}, idx)
     try:
@@ -768,13 +789,13 @@ def s2c_zone(ctx, F):
                     t = bool(is_tz(z))
                     ctx.evals += 1
                     if t is not True:
-                        F.add('is_tz', {'op': 'is_tz', 'kind': 'named', 'zone_class': type(z).__module__ + '.' + type(z).__name__}, {'name': r['name']}, True, t)
+                        F.add('is_tz', {'op': 'is_tz', 'kind': 'named', 'zone_lib': zone_lib(z)}, {'name': r['name']}, True, t)
             ctx.note(('name', r['name']))
         for kind, x in is_tz_kinds():
             t = bool(is_tz(x))
             ctx.evals += 1
             if t is not False:
-                F.add('is_tz', {'op': 'is_tz', 'kind': kind}, {'arg': repr(x)}, False, t)
+                F.add('is_tz', {'op': 'is_tz', 'kind': kind, 'zone_lib': '-'}, {'arg': repr(x)}, False, t)
         for r in recs:
             if r['k'] != 'zone':
                 continue
@@ -800,8 +821,7 @@ def s2c_zone(ctx, F):
                         clause = 'zone_object_not_recognised'
                     else:
                         clause = 'replace_keeps_wall_clock' if c['op'] in ('replace', 'sreplace', 'dt', 'sdt') else 'convert_keeps_instant'
-                    F.add(clause, {'op': c['op'], 'zone_as': c['z2'][0] + (':' + c['z2'][1] if c['z2'][0] == 'fixed' else ''),
-                                   'zone_class': type(as_tz(z2)).__module__ + '.' + type(as_tz(z2)).__name__ if z2 is not None else 'None',
+                    F.add(clause, {'op': c['op'], 'zone_as': c['z2'][0] + (':' + c['z2'][1] if c['z2'][0] == 'fixed' else ''), 'zone_lib': zone_lib(z2),
                                    'input': c['t'][0], 'kind': excname(got) or got[0]},
                           {'t': str(tin), 'zone': repr(z2), 'machine_offset': c['sys']}, c['want'], got)
                 ctx.note(('zone', c['op'], json.dumps(c['z2']), json.dumps(c['t'])))
@@ -849,12 +869,12 @@ def c2s_zone(ctx, obs, names, bad_names):
             set_machine_zone(sys_off)
             z2 = render_zone(sp2)
             out = outcome(lambda: zone_call(op, tin, z2), enc_time)
-            obs.append({'k': 'zone', 'op': op, 't': enc_time(tin), 'z2': sp2, 'sys': sys_off, 'out': out})
+            obs.append({'k': 'zone', 'op': op, 't': enc_time(tin), 'z2': sp2, 'sys': sys_off, 'out': out, 'zone_lib': zone_lib(z2)})
             ctx.evals += 1
     for kind, x in is_tz_kinds() + [('fixed', datetime.timezone.utc), ('fixed', datetime.timezone(datetime.timedelta(hours=3)))]:
         obs.append({'k': 'istz', 'kind': kind, 'out': bool(is_tz(x))})
     for nm in good:
-        obs.append({'k': 'istz', 'kind': 'named', 'out': bool(is_tz(as_tz(nm)))})
+        obs.append({'k': 'istz', 'kind': 'named', 'out': bool(is_tz(as_tz(nm))), 'zone_lib': zone_lib(nm), 'name': nm})
 
 
 # ------------------------------------------------------------------------------------------------ C2S verdicts
@@ -882,10 +902,10 @@ def sig_of(o, clause):
     if k == 'fmt':
         return {'op': 'dt2str', 'fmt': repr(render_fmt(o['fmt']))}
     if k == 'zone':
-        return {'op': o['op'], 'zone_as': o['z2'][0] + (':' + o['z2'][1] if o['z2'][0] == 'fixed' else ''), 'input': o['t'][0],
+        return {'op': o['op'], 'zone_as': o['z2'][0] + (':' + o['z2'][1] if o['z2'][0] == 'fixed' else ''), 'zone_lib': o['zone_lib'], 'input': o['t'][0],
                 'kind': excname(o['out']) or o['out'][0]}
     if k == 'istz':
-        return {'op': 'is_tz', 'kind': o['kind']}
+        return {'op': 'is_tz', 'kind': o['kind'], 'zone_lib': o.get('zone_lib', '-')}
     return {'op': k}
 
 
@@ -941,7 +961,7 @@ def judge(ctx, obs, F):
     if {c['k'] for c in can} != kinds_needed:
         raise Machinery('no corruptible observation of kind(s) %s' % sorted(kinds_needed - {c['k'] for c in can}))
     chunk = 20000
-    rejected_canaries = {}
+    rejected_canaries = []
     for a in range(0, len(obs), chunk):
         part = obs[a:a + chunk]
         extra = can if a == 0 else []
@@ -951,7 +971,7 @@ def judge(ctx, obs, F):
             cl = hit.get(len(part) + j + 1)
             if cl is None or cl == 'bad_input':
                 raise Machinery('Trace_Tenor accepted a corrupted %s observation: the binding is not real' % cobs['k'])
-            rejected_canaries[cobs['k']] = cl
+            rejected_canaries.append([cobs['k'], cl])
         for i, clause in bad:
             if i > len(part):
                 continue
@@ -988,12 +1008,16 @@ def run(ctx):
     q = 'quick' if ctx.quick else 'thorough'
     from harness.x_tlcpar import Prefetch
     with Prefetch(ctx.tmp, parallel=int(os.environ.get('X05_PARALLEL', '3'))) as pf:
+        # (-coverage makes TLC count every evaluation of every subexpression: with the nested quantifiers of these modules that is
+        # 50x slower.  Each behaviour is one state and one step; that every step was taken is checked on the state counts instead.)
         for mod in ('MC_Tenor', 'MC_TenorCal', 'MC_TenorZone'):
-            pf.submit(mod, '%s_%s.cfg' % (mod, q), coverage=True)
+            pf.submit(mod, '%s_%s.cfg' % (mod, q), coverage=False)
         for mod in ('MC_Tenor', 'MC_TenorCal', 'MC_TenorZone'):
             pf.submit(mod, '%s_gen_%s.cfg' % (mod, q), coverage=False)
         for mod in ('MC_Tenor', 'MC_TenorCal', 'MC_TenorZone'):
-            ctx.mc(mod, '%s_%s.cfg' % (mod, q))
+            r = ctx.mc(mod, '%s_%s.cfg' % (mod, q), coverage=False)
+            if r.distinct % 2 or r.generated != r.distinct:
+                raise Machinery('vacuous: not every behaviour of %s took its step (%d generated, %d distinct)' % (mod, r.generated, r.distinct))
         F = Findings()
         s2c_tenor(ctx, F)
         s2c_cal(ctx, F)
@@ -1020,3 +1044,33 @@ def run(ctx):
         'not covered: numpy units ps/fs/as, NaT, dt2str fields z Z U W c x X, ISO week fields, years_to_maturity with intraday times, unsorted timeseries, '
         'dt(tzinfo=) without a date (now), DataFrame time-zone operations, lists / dicts of times in tz_replace / tz_convert',
     ]
+
+
+def replay(ctx, body):
+    """./check X05 --replay <file>: show the recorded witness (the findings of this check are groups: clause, signature,
+    first witness, count) and run it again where the witness names a single call"""
+    c = body['case']
+    w = c.get('witness', {})
+    print('clause:', body['clause'])
+    print('case:', json.dumps(c)[:1500])
+    print('recorded:', json.dumps(body['detail'])[:1500])
+    try:
+        if c.get('op') == 'years_to_maturity' and 'maturity' in w:
+            from pyg_base import dt
+            from pyg_base._tenor import years_to_maturity
+            got = outcome(lambda: years_to_maturity(dt(w['maturity']), dt(w['t'])), enc_years)
+        elif c.get('op') == 'month' and 'arg' in w:
+            from pyg_base._dates import month
+            got = outcome(lambda: month(eval(w['arg'], {'inf': float('inf'), 'nan': float('nan')})), enc_int)
+        elif c.get('op') == 'nth_weekday_of_month' and 'w' in w:
+            from pyg_base import nth_weekday_of_month
+            got = outcome(lambda: nth_weekday_of_month(w['y'], eval(w['m']), w['n'], w['w']), enc_dt)
+        else:
+            print('(no single-call replay for this kind of witness)')
+            return 2
+    except Exception as e:
+        print('replay failed:', repr(e))
+        return 2
+    print('observed now:', got)
+    want = body['detail'].get('expected')
+    return 0 if (got == want or got == ['val', want]) else 1
